@@ -7,6 +7,10 @@ From Cfg Require Export Lib.Run Gen.WsConst Model.WsUtf8 Model.WsClose Model.WsC
 Import ListNotations.
 Open Scope N_scope.
 
+(* compact notation of the driver for long periodic byte strings *)
+Fixpoint rep (p : bytes) (n : nat) : bytes :=
+  match n with O => [] | S k => p ++ rep p k end.
+
 Record case := mkCase {
   c_cfg : rcfg;
   c_infl : list (bytes * option bytes);     (* compress/flate on (data ++ tail), as computed by the driver *)
